@@ -29,6 +29,7 @@ type CEnv struct {
 	guard *smt.Term
 	fc    *FuncContract
 	depth int
+	hypo  bool // the expression is being assumed (not proved)
 }
 
 func (ce *CEnv) withState(st *State) *CEnv {
@@ -899,7 +900,7 @@ func (x *Exec) pureFuncApp(ce *CEnv, f *ssa.Function, fc *FuncContract, args []*
 			for i, p := range f.Params {
 				vars[p.Name()] = args[i]
 			}
-			ce2 := &CEnv{x: x, st: ce.st, old: ce.st, vars: vars, guard: ce.guard, fc: fc, depth: ce.depth + 1, pkg: fnPkg(f)}
+			ce2 := &CEnv{x: x, st: ce.st, old: ce.st, vars: vars, guard: ce.guard, fc: fc, depth: ce.depth + 1, pkg: fnPkg(f), hypo: true}
 			x.evalLets(ce2, fc)
 			var pre []*smt.Term
 			for _, r := range fc.Requires {
@@ -1069,6 +1070,41 @@ func (x *Exec) evalBuiltinSpec(ce *CEnv, name string, args []Expr) (*Val, bool) 
 		b := x.eval(ce, args[2])
 		a, b = x.unify(a, b)
 		return x.iteVal(c.T, a, b), true
+	case "isint":
+		// isint(e): the real e is an integer
+		v := x.coerce(x.eval(ce, args[0]), float64T)
+		if x.fp {
+			cfail("isint needs the real model")
+		}
+		ti := x.b.App("to_int", "Int", v.T)
+		base := x.b.Eq(x.b.App("to_real", "Real", ti), v.T)
+		// Equivalent disjuncts that name explicit integer witnesses (the integers
+		// already in scope, their sums/differences, +-1): each implies `base`, so
+		// the disjunction is equivalent to it, but it spares the solver the
+		// integrality search.
+		ds := []*smt.Term{base}
+		if ce.hypo && !v.T.Bound {
+			x.intWitnesses = append(x.intWitnesses, ti)
+		} else if !v.T.Bound {
+			ws := x.intWitnesses
+			if len(ws) <= 4 {
+				var cands []*smt.Term
+				for i, w := range ws {
+					cands = append(cands, w)
+					for j := 0; j < i; j++ {
+						cands = append(cands, x.b.Sub(w, ws[j]), x.b.Add(w, ws[j]))
+					}
+				}
+				for _, c := range cands {
+					for _, off := range []int64{0, 1, -1} {
+						cc := x.b.Add(c, x.b.Int(off))
+						ds = append(ds, x.b.Eq(v.T, x.b.App("to_real", "Real", cc)), x.b.Eq(v.T, x.b.Neg(x.b.App("to_real", "Real", cc))))
+					}
+				}
+			}
+			x.intWitnesses = append(x.intWitnesses, ti)
+		}
+		return &Val{Typ: boolT, T: x.b.Or(ds...)}, true
 	case "ghost":
 		id, ok := args[0].(*EIdent)
 		if !ok {
